@@ -360,11 +360,11 @@ def _big_cases(args):
             rq = float(np.real(v.conj() @ H @ v) / np.real(v.conj() @ v))
             if abs(np.linalg.norm(v) - 1) > 1e-8 or rq < exact[0] - 1e-8:
                 out["viol"].append(("C08:states:iterative", f"state {k}: norm {np.linalg.norm(v)}, energy {rq}, exact ground {exact[0]}", detail))
-            if M >= 18 and abs(rq - exact[k]) > 1e-5:
+            if M >= 18 and abs(rq - exact[k]) > (1e-5 if nroots == 1 else 3e-4):     # Davidson's own tolerance with several (near-degenerate) roots
                 out["viol"].append(("C08:exact:state:iterative", f"full bond: state {k} energy {rq}, exact {exact[k]}", detail))
         if M >= 18:
             last = np.atleast_1d(np.asarray(energies[-1], dtype=float))
-            if np.abs(last - exact[:nroots]).max() > 1e-5:
+            if np.abs(last - exact[:nroots]).max() > (1e-5 if nroots == 1 else 3e-4):
                 out["viol"].append(("C08:exact:reported:iterative", f"full bond: reported {last}, exact {exact[:nroots]}", detail))
     except MachineryError:
         raise
